@@ -22,9 +22,9 @@ static const struct { const char *name; size_t off; } g_fields[] = {
 	F(skew_c), F(skew_s), F(jump_node), F(jump_at_ns), F(jump_delta_s),
 	F(interpose), F(closer),
 	F(defect), F(defect_role), F(defect_arg),
-	F(op), F(op_count), F(efail_node), F(efail_at), F(efail_rest), F(eburst_at), F(eburst_k), F(eburst_val),
+	F(op), F(op_count), F(efail_node), F(efail_at), F(efail_rest), F(efail_errno), F(eburst_at), F(eburst_k), F(eburst_val),
 	F(ntasks), F(preempt_mean), F(pct_d),
-	F(victim), F(extra_roots),
+	F(victim), F(extra_roots), F(tz),
 };
 #define NFIELDS (sizeof(g_fields) / sizeof(g_fields[0]))
 
@@ -34,7 +34,7 @@ void plan_init(Plan *p, const char *scenario)
 	snprintf(p->scenario, sizeof(p->scenario), "%s", scenario);
 	p->depth = 1;
 	p->stay_num = 1; p->stay_den = 2;
-	p->efail_node = -1; p->efail_at = -1; p->eburst_at = -1;
+	p->efail_node = -1; p->efail_at = -1; p->eburst_at = -1; p->efail_errno = 5;
 	p->jump_node = -1;
 	p->defect = 0;
 }
@@ -48,8 +48,8 @@ void plan_print(FILE *f, const Plan *p)
 	}
 	for (int i = 0; i < p->nrounds; i++) {
 		const Round *r = &p->rounds[i];
-		fprintf(f, "round %d %" PRId64 " %" PRId64 " %" PRId64 " %" PRId64 " %" PRId64 " %" PRId64 "\n",
-			r->mode, r->n[0], r->n[1], r->wchunk[0], r->wchunk[1], r->rbuf_max[0], r->rbuf_max[1]);
+		fprintf(f, "round %d %" PRId64 " %" PRId64 " %" PRId64 " %" PRId64 " %" PRId64 " %" PRId64 " %" PRId64 " %" PRId64 "\n",
+			r->mode, r->n[0], r->n[1], r->wchunk[0], r->wchunk[1], r->rbuf_max[0], r->rbuf_max[1], r->ack_every, r->ack_size);
 	}
 	for (int i = 0; i < p->nfaults; i++) {
 		const Fault *x = &p->faults[i];
@@ -86,8 +86,9 @@ int plan_parse(FILE *f, Plan *p)
 		if (!strcmp(key, "round")) {
 			if (p->nrounds >= MAX_ROUNDS) return -1;
 			Round *r = &p->rounds[p->nrounds];
-			if (sscanf(line, "%*s %d %" SCNd64 " %" SCNd64 " %" SCNd64 " %" SCNd64 " %" SCNd64 " %" SCNd64,
-				&r->mode, &r->n[0], &r->n[1], &r->wchunk[0], &r->wchunk[1], &r->rbuf_max[0], &r->rbuf_max[1]) != 7) return -1;
+			memset(r, 0, sizeof(*r));
+			if (sscanf(line, "%*s %d %" SCNd64 " %" SCNd64 " %" SCNd64 " %" SCNd64 " %" SCNd64 " %" SCNd64 " %" SCNd64 " %" SCNd64,
+				&r->mode, &r->n[0], &r->n[1], &r->wchunk[0], &r->wchunk[1], &r->rbuf_max[0], &r->rbuf_max[1], &r->ack_every, &r->ack_size) < 7) return -1;
 			p->nrounds++;
 			continue;
 		}
